@@ -527,11 +527,11 @@ def run(ctx):
             plan.append((by_name["abs-index"], "GET", text))
         if not ctx.quick:
             for text in grid_paths(3):
-                for cfg in cfgs[1:]:
+                for cfg in cfgs[1::3]:
                     plan.append((cfg, ctx.rng.choice(["GET", "HEAD"]), text))
         # sampled longer paths over every configuration and method
         nmax = 4 if ctx.quick else 5
-        for _ in range(4000 if ctx.quick else 60000):
+        for _ in range(4000 if ctx.quick else 30000):
             n = ctx.rng.randint(2, nmax)
             text = ctx.rng.choice(["", "/"]) + ctx.rng.choice(SEGS)
             for _ in range(n - 1):
